@@ -33,7 +33,18 @@ impl SwiftField for Field86 {
         let mut lines = Vec::new();
 
         // Parse up to 6 lines of 65 characters each
-        for line in input.lines().take(6) {
+        if input.lines().count() > 6 {
+            return Err(ParseError::InvalidFormat {
+                message: "Field 86 cannot have more than 6 lines".to_string(),
+            });
+        }
+
+        for line in input.lines() {
+            if line.is_empty() {
+                return Err(ParseError::InvalidFormat {
+                    message: "Field 86 cannot contain an empty line".to_string(),
+                });
+            }
             // Validate line length (max 65 characters)
             if line.len() > 65 {
                 return Err(ParseError::InvalidFormat {
